@@ -89,6 +89,26 @@ pub async fn tcp_pair(ctx: &ctx::Ctx) -> ctx::Result<(Tcp, Tcp)> {
     Ok((Tcp(a), Tcp(b)))
 }
 
+/// Loopback listener on an ephemeral port, for the peers a node dials.
+pub struct TcpListener(net::tcp::Listener, std::net::SocketAddr);
+
+impl TcpListener {
+    pub async fn bind() -> anyhow::Result<Self> {
+        let l = tokio::net::TcpListener::bind(("127.0.0.1", 0)).await?;
+        let addr = l.local_addr()?;
+        Ok(Self(l, addr))
+    }
+    pub fn addr(&self) -> std::net::SocketAddr {
+        self.1
+    }
+    pub async fn accept(&mut self, ctx: &ctx::Ctx) -> ctx::Result<Tcp> {
+        let s = metrics::MeteredStream::accept(ctx, &mut self.0).await?;
+        s.set_linger(Some(std::time::Duration::ZERO))
+            .map_err(anyhow::Error::from)?;
+        Ok(Tcp(s))
+    }
+}
+
 pub async fn tcp_connect(ctx: &ctx::Ctx, addr: std::net::SocketAddr) -> ctx::Result<Tcp> {
     Ok(Tcp(metrics::MeteredStream::connect(ctx, addr).await?))
 }
